@@ -82,7 +82,7 @@ Definition c17_case (lang : option language) (q c O : bool) (Fraw : option strin
   let s_funcs := if rendered && O
                  then forallb (fun l => zlist_eqb l (spec_owner_list (parse_F Fraw) defs)) obs_funcs
                  else true in
-  bit (exit_code act =? rc) 1 + bit (model_class act =? cls) 2 + bit (Bool.eqb m_rendered rendered) 4 +
+  bit (process_status act =? rc) 1 + bit (model_class act =? cls) 2 + bit (Bool.eqb m_rendered rendered) 4 +
   bit (zll_eqb m_funcs obs_funcs) 8 + bit m_pos 32 +
   bit s_exit 1024 + bit s_funcs 2048.
 
@@ -116,7 +116,7 @@ Definition c20_lint_case (lang : option language) (q c O : bool) (mw : list warn
   let s_clean := if q then true
                  else (if all_conf then match obs with [] => true | _ => false end else true) &&
                       forallb (fun m => existsb (fun o => String.eqb (fst o) (fst m) && (snd o =? snd m)) obs) must in
-  bit (exit_code act =? rc) 1 + bit (wl_eqb m_w obs) 64 + bit s_exit 4096 + bit s_clean 8192.
+  bit (process_status act =? rc) 1 + bit (wl_eqb m_w obs) 64 + bit s_exit 4096 + bit s_clean 8192.
 
 (* a recorded position: name token at offset pos, first token of the statement at first_pos *)
 Definition c20_pos_case (text : string) (pos first_pos : nat) (o_line o_col o_indent : Z) (check_indent : bool) : Z :=
